@@ -59,7 +59,7 @@ SpendTx == <<F(4), F(2), C(1, 0)>> \o TxIn(0) \o <<C(2, 0)>> \o TxOut(22) \o TxO
 \* header and nonce of cmpctblock4, whose short id list holds exactly that id (the sender fixes the siphash key by
 \* choosing the nonce and is free to grind transactions: a birthday search over ~2^24 txids).
 AllCmds == <<"version", "verack", "addr", "inv", "getdata", "notfound", "getblocks", "getheaders", "headers", "headers2",
-             "tx", "txo1", "txo2", "block", "block2", "cmpctblock", "cmpctblock2", "cmpctblock3", "cmpctblock4", "getblocktxn", "getblocktxn1", "getblocktxn3", "blocktxn", "blocktxn2", "idle",
+             "tx", "txo1", "txo2", "block", "block2", "cmpctblock", "cmpctblock2", "cmpctblock3", "cmpctblock4", "getblocktxn", "getblocktxn1", "getblocktxn3", "blocktxn", "blocktxn2", "idle", "peersfull", "Bblock", "Bheaders",
              "ping", "pong", "feefilter", "sendcmpct",
              "sendheaders", "getaddr", "getmp", "getmpdone", "xauth", "authack", "filterload", "unknown", "frame",
              \* block locators against a block tree with a dead side branch S1 - S2 that forks off below the active tip:
@@ -80,7 +80,11 @@ Wire(c) == CASE c \in GHVar -> "getheaders" [] c \in GBVar -> "getblocks" [] c =
 Orphans == {"headers2", "block2", "cmpctblock2"}
 \* blocktxn2 names a block this connection never heard of; idle is no message at all: the peer stays silent while the
 \* node's own tick runs (the timers of tick.go: getheaders, getdata for announced blocks).
-ContextOnly == {"txo2", "cmpctblock4", "blocktxn2", "idle"} \cup GHVar \cup GBVar   \* same grammar as another instance: only the valid instance is of interest
+\* The environment acts (no bytes from this peer): idle; peersfull = the peers database has filled up to its limit;
+\* Bblock / Bheaders = another peer, on its own connection, delivers block B1 / announces the headers of B1 and B2
+\* (BlocksToGet and ReceivedBlocks are shared by all connections, GetBlockInProgress belongs to one).
+Env == {"idle", "peersfull", "Bblock", "Bheaders"}
+ContextOnly == {"txo2", "cmpctblock4", "blocktxn2"} \cup Env \cup GHVar \cup GBVar   \* same grammar as another instance: only the valid instance is of interest
 
 Grammar(c) ==
   CASE c = "version" -> <<F(4), F(8), F(8), F(26), F(26), F(8)>> \o LB(15) \o <<F(4), F(1)>>
@@ -103,7 +107,7 @@ Grammar(c) ==
     [] c = "getblocktxn1" -> <<F(32), C(1, 0), V(0, 1)>>
     [] c = "getblocktxn3" -> <<F(32), C(3, 0), V(0, 4), V(1, 4), V(0, 4)>>       \* absolute 0, 2, 3
     [] c \in {"blocktxn", "blocktxn2"} -> <<F(32), C(1, 0)>> \o SpendTx
-    [] c = "idle" -> << >>
+    [] c \in Env -> << >>
     [] c \in GHVar \cup GBVar -> <<F(4), C(LocLen(c), 32)>> \o [i \in 1..LocLen(c) |-> F(32)] \o <<F(32)>>
     [] c \in {"ping", "pong", "feefilter", "unknown", "frame"} -> <<F(8)>>
     [] c = "sendcmpct" -> <<F(1), F(8)>>
@@ -154,13 +158,14 @@ VARIABLES alive,   \* the connection is not (being) closed
           h1,      \* header of B1: "no" | "b2g" (BlocksToGet) | "got" (ReceivedBlocks)
           h2,      \* header of B2 is in BlocksToGet
           mp,      \* tx1 is in the mempool
+          pf,      \* environment: the peers database is at its size limit (MaxPeersInDB + MaxPeersDeviation records)
           o1, o2,  \* the orphan transactions txo1 / txo2 wait in the pool of rejected transactions (TransactionsRejected)
           npre, npost,
           held,    \* mutexes held after the last Recv returned
           order,   \* FALSE once MutexRcv was taken while c.Mutex was held
           out      \* outcome of the last Recv
 
-vars == <<alive, ver, score, cmpct, auth, addrd, ahr, bip, gd, h1, h2, mp, o1, o2, npre, npost, held, order, out>>
+vars == <<alive, ver, score, cmpct, auth, addrd, ahr, bip, gd, h1, h2, mp, pf, o1, o2, npre, npost, held, order, out>>
 
 Locks == {"c", "net", "rcv", "tx", "last", "cnt", "idx", "peers", "cfg", "friends", "extip", "cblk", "cache"}
 Outcomes == {"ok", "ignored", "penalised", "disconnected"}
@@ -256,10 +261,10 @@ Teardown == IF "TeardownLockOrder" \in Defects THEN <<"+c", "+rcv", "-rcv", "-c"
 \* ------------------------------------------------------------------ session
 Init ==
   /\ alive = TRUE /\ ver = FALSE /\ score = 0 /\ cmpct = 0 /\ auth = "no" /\ addrd = FALSE /\ ahr = FALSE
-  /\ bip = FALSE /\ gd = FALSE /\ h1 = "no" /\ h2 = FALSE /\ mp = FALSE /\ o1 = FALSE /\ o2 = FALSE /\ npre = 0 /\ npost = 0
+  /\ bip = FALSE /\ gd = FALSE /\ h1 = "no" /\ h2 = FALSE /\ mp = FALSE /\ pf = FALSE /\ o1 = FALSE /\ o2 = FALSE /\ npre = 0 /\ npost = 0
   /\ held = {} /\ order = TRUE /\ out = "ok"
 
-Same == UNCHANGED <<ver, cmpct, auth, addrd, ahr, bip, h1, h2, mp, o1, o2, gd>>
+Same == UNCHANGED <<ver, cmpct, auth, addrd, ahr, bip, h1, h2, mp, o1, o2, gd, pf>>
 
 \* applies a path: locks, outcome, score. pen = points added when the outcome is "penalised"
 Apply(p, pen) ==
@@ -295,7 +300,7 @@ RecvFrame(x) ==
 
 \* --- before the version message everything else only costs points
 RecvNoVer(x) ==
-  /\ x.cmd \notin {"frame", "version", "idle"} /\ ~ver
+  /\ x.cmd \notin {"frame", "version"} \cup Env /\ ~ver
   /\ Count(x) /\ Same
   /\ Apply(P(<<"+c", "-c">> \o Ban, "penalised"), 100)
 
@@ -309,17 +314,25 @@ RecvVersionAgain(x) ==
 \*     block with a plain getdata (GetBlockData); whether the timers allow that right now is not modelled.
 RecvIdle(x) ==
   /\ x.cmd = "idle"
-  /\ Count(x) /\ UNCHANGED <<ver, cmpct, auth, addrd, ahr, bip, h1, h2, mp, o1, o2>>
+  /\ Count(x) /\ UNCHANGED <<ver, cmpct, auth, addrd, ahr, bip, h1, h2, mp, o1, o2, pf>>
   /\ \/ gd' = (gd \/ (ver /\ ahr /\ h1 = "b2g" /\ ~bip))
      \/ gd' = gd
   /\ Apply(P(<<"+c", "-c", "+c", "-c", "+rcv", "+c", "-c", "-rcv">> \o Snd, "ok"), 0)
 
+RecvEnv(x) ==
+  /\ x.cmd \in Env \ {"idle"}
+  /\ Count(x) /\ UNCHANGED <<ver, cmpct, auth, addrd, ahr, bip, gd, mp, o1, o2>>
+  /\ pf' = (pf \/ x.cmd = "peersfull")
+  /\ h1' = (IF x.cmd = "Bblock" THEN "got" ELSE IF x.cmd = "Bheaders" /\ h1 = "no" THEN "b2g" ELSE h1)
+  /\ h2' = (h2 \/ x.cmd = "Bheaders")
+  /\ Apply(P(IF x.cmd = "peersfull" THEN <<"+peers", "-peers">> ELSE WF(IF x.cmd = "Bblock" THEN "block" ELSE "headers"), "ok"), 0)
+
 RecvValid(x) ==
-  /\ x.k = "valid" /\ x.cmd \notin {"frame", "idle"} /\ (ver \/ x.cmd = "version") /\ ~(ver /\ x.cmd = "version")
+  /\ x.k = "valid" /\ x.cmd \notin {"frame"} \cup Env /\ (ver \/ x.cmd = "version") /\ ~(ver /\ x.cmd = "version")
   /\ Count(x)
   /\ LET c == x.cmd IN
      CASE c \in Orphans /\ h1 = "no" ->        \* the parent of B2 is unknown: the header does not connect (PH_STATUS_ERROR)
-            /\ UNCHANGED <<ver, cmpct, auth, addrd, bip, h1, h2, mp, o1, o2, gd>>
+            /\ UNCHANGED <<ver, cmpct, auth, addrd, bip, h1, h2, mp, o1, o2, gd, pf>>
             /\ ahr' = (IF c = "headers2" THEN TRUE ELSE IF c = "cmpctblock2" THEN FALSE ELSE ahr)
             /\ IF c = "block2" THEN Apply(P(<<"+rcv", "+c", "-c", "+idx", "-idx", "-rcv">>, "ok"), 0)
                ELSE IF c = "headers2" THEN Apply(P(<<"+c", "-c", "~rcv", "~idx">> \o Ban, "penalised"), 50)
@@ -327,43 +340,43 @@ RecvValid(x) ==
        [] c \in Orphans /\ h1 # "no" ->        \* B2 connects; what it does to the download bookkeeping is not modelled
             /\ Same
             /\ \E p \in ErrExits(Wire(c)) \cup {P(WF(Wire(c)), "ok")} : \E pen \in PenSet : Apply(p, pen)
-       [] c = "version" -> /\ ver' = TRUE /\ UNCHANGED <<cmpct, auth, addrd, ahr, bip, h1, h2, mp, o1, o2, gd>>
+       [] c = "version" -> /\ ver' = TRUE /\ UNCHANGED <<cmpct, auth, addrd, ahr, bip, h1, h2, mp, o1, o2, gd, pf>>
                            /\ Apply(P(WF(c), "ok"), 0)
-       [] c = "sendcmpct" -> /\ cmpct' = (IF cmpct < 2 THEN 2 ELSE cmpct) /\ UNCHANGED <<ver, auth, addrd, ahr, bip, h1, h2, mp, o1, o2, gd>>
+       [] c = "sendcmpct" -> /\ cmpct' = (IF cmpct < 2 THEN 2 ELSE cmpct) /\ UNCHANGED <<ver, auth, addrd, ahr, bip, h1, h2, mp, o1, o2, gd, pf>>
                              /\ Apply(P(WF(c), "ok"), 0)
-       [] c = "getaddr" -> /\ addrd' = TRUE /\ UNCHANGED <<ver, cmpct, auth, ahr, bip, h1, h2, mp, o1, o2, gd>>
+       [] c = "getaddr" -> /\ addrd' = TRUE /\ UNCHANGED <<ver, cmpct, auth, ahr, bip, h1, h2, mp, o1, o2, gd, pf>>
                            /\ IF addrd THEN Apply(P(<<"+c", "-c">> \o Ban, "penalised"), 50) ELSE Apply(P(WF(c), "ok"), 0)
-       [] c = "xauth" -> /\ UNCHANGED <<ver, cmpct, addrd, ahr, bip, h1, h2, mp, o1, o2, gd>>
+       [] c = "xauth" -> /\ UNCHANGED <<ver, cmpct, addrd, ahr, bip, h1, h2, mp, o1, o2, gd, pf>>
                          /\ IF auth # "no" THEN auth' = auth /\ Apply(P(Ban, "disconnected"), 0)      \* one auth message per connection
                             ELSE auth' = "ok" /\ Apply(P(WF(c), "ok"), 0)
        [] c = "authack" -> /\ Same /\ Apply(P(<<"+c", "-c">>, "disconnected"), 0)                      \* unsigned authack ends Run()
        [] c = "filterload" -> /\ Same /\ Apply(P(Ban, "disconnected"), 0)
-       [] c = "inv" -> /\ ahr' = FALSE /\ UNCHANGED <<ver, cmpct, auth, addrd, bip, h1, h2, mp, o1, o2, gd>>   \* unknown block: ReceiveHeadersNow
+       [] c = "inv" -> /\ ahr' = FALSE /\ UNCHANGED <<ver, cmpct, auth, addrd, bip, h1, h2, mp, o1, o2, gd, pf>>   \* unknown block: ReceiveHeadersNow
                        /\ Apply(P(WF(c), "ok"), 0)
-       [] c = "tx" -> /\ mp' = TRUE /\ UNCHANGED <<ver, cmpct, auth, addrd, ahr, bip, h1, h2, o1, o2, gd>>
+       [] c = "tx" -> /\ mp' = TRUE /\ UNCHANGED <<ver, cmpct, auth, addrd, ahr, bip, h1, h2, o1, o2, gd, pf>>
                       /\ Apply(P(WF(c), "ok"), 0)
-       [] c = "headers" -> /\ UNCHANGED <<ver, cmpct, auth, addrd, bip, mp, o1, o2, gd>>
+       [] c = "headers" -> /\ UNCHANGED <<ver, cmpct, auth, addrd, bip, mp, o1, o2, gd, pf>>
                            /\ h1' = (IF h1 = "no" THEN "b2g" ELSE h1) /\ h2' = TRUE
                            /\ ahr' = (IF h1 # "no" /\ h2 THEN TRUE ELSE ahr)       \* no new header: AllHeadersReceived
                            /\ Apply(P(WF(c), "ok"), 0)
-       [] c = "block" -> /\ UNCHANGED <<ver, cmpct, auth, addrd, ahr, h2, mp, o1, o2>>
+       [] c = "block" -> /\ UNCHANGED <<ver, cmpct, auth, addrd, ahr, h2, mp, o1, o2, pf>>
                          /\ h1' = "got" /\ bip' = FALSE /\ gd' = FALSE     \* netBlockReceived drops the entry of GetBlockInProgress
                          /\ Apply(P(WF(c), "ok"), 0)
-       [] c = "cmpctblock" -> /\ UNCHANGED <<ver, cmpct, auth, addrd, ahr, h2, mp, o1, o2>>
+       [] c = "cmpctblock" -> /\ UNCHANGED <<ver, cmpct, auth, addrd, ahr, h2, mp, o1, o2, pf>>
                               /\ IF h1 = "got" THEN h1' = h1 /\ bip' = bip /\ gd' = gd
                                  ELSE IF mp /\ cmpct = 2 THEN h1' = "got" /\ bip' = bip /\ gd' = gd   \* every transaction found by its (wtxid) short id: complete
                                  ELSE h1' = "b2g" /\ bip' = TRUE /\ gd' = FALSE    \* getblocktxn sent, the collector replaces a plain entry
                               /\ Apply(P(WF(c), "ok"), 0)
        [] c \in {"txo1", "txo2"} ->             \* input unknown: TX_REJECTED_NO_TXOU, kept while it waits for the input
-            /\ UNCHANGED <<ver, cmpct, auth, addrd, ahr, bip, h1, h2, mp, gd>>
+            /\ UNCHANGED <<ver, cmpct, auth, addrd, ahr, bip, h1, h2, mp, gd, pf>>
             /\ o1' = (o1 \/ c = "txo1") /\ o2' = (o2 \/ c = "txo2")
             /\ Apply(P(WF("tx") \o Snd, "ok"), 0)
        [] c = "cmpctblock3" ->                  \* every transaction prefilled: the block is complete at once
-            /\ UNCHANGED <<ver, cmpct, auth, addrd, ahr, bip, h2, mp, o1, o2, gd>>
+            /\ UNCHANGED <<ver, cmpct, auth, addrd, ahr, bip, h2, mp, o1, o2, gd, pf>>
             /\ h1' = "got"
             /\ Apply(P(WF("cmpctblock"), "ok"), 0)
        [] c = "cmpctblock4" ->
-            /\ UNCHANGED <<ver, cmpct, auth, addrd, ahr, h2, mp, o1, o2>>
+            /\ UNCHANGED <<ver, cmpct, auth, addrd, ahr, h2, mp, o1, o2, pf>>
             /\ h1' = (IF h1 = "no" THEN "b2g" ELSE h1)
             /\ bip' = (IF h1 # "got" /\ ~o1 /\ ~o2 THEN TRUE ELSE bip)      \* nothing matches the short id: getblocktxn
             /\ gd' = (IF h1 # "got" /\ ~o1 /\ ~o2 THEN FALSE ELSE gd)
@@ -371,7 +384,7 @@ RecvValid(x) ==
                THEN IF "CmpctSameSid" \in Defects THEN Apply(P(<<"~rcv", "+c", "-c", "+tx", ".">>, "ok"), 0)
                     ELSE Apply(P(<<"~rcv", "+c", "-c", "+tx", "-tx">>, "ok"), 0)
                ELSE Apply(P(WF("cmpctblock"), "ok"), 0)    \* one orphan matches: assembled, merkle root differs, dropped
-       [] c = "blocktxn" -> /\ UNCHANGED <<ver, cmpct, auth, addrd, ahr, h2, mp, o1, o2, gd>>
+       [] c = "blocktxn" -> /\ UNCHANGED <<ver, cmpct, auth, addrd, ahr, h2, mp, o1, o2, gd, pf>>
                             /\ IF bip THEN bip' = FALSE /\ h1' = (IF h1 = "got" THEN h1 ELSE "got") /\ Apply(P(WF(c), "ok"), 0)
                                ELSE /\ bip' = bip /\ h1' = h1       \* no entry (BlkTxnErrBip) or an entry without collector (BlkTxnNoCOL)
                                     /\ IF gd /\ "BlkTxnNoColLock" \in Defects THEN Apply(P(<<"~rcv", "+c", "#">>, "ok"), 0)
@@ -386,14 +399,14 @@ RecvValid(x) ==
 \*     change as for the valid payload; the model keeps the state and the replay driver tolerates either.
 RecvMalformed(x) ==
   /\ x.k # "valid" /\ x.cmd # "frame" /\ (ver \/ x.cmd = "version") /\ ~(ver /\ x.cmd = "version")
-  /\ Count(x) /\ UNCHANGED <<cmpct, auth, addrd, ahr, bip, h1, h2, mp, o1, o2, gd>>
+  /\ Count(x) /\ UNCHANGED <<cmpct, auth, addrd, ahr, bip, h1, h2, mp, o1, o2, gd, pf>>
   /\ \E p \in ErrExits(Wire(x.cmd)) \cup DefectPaths(Wire(x.cmd)) \cup {P(WF(Wire(x.cmd)), "ok")} :
         /\ \E pen \in PenSet : Apply(p, pen)
         /\ ver' = (IF x.cmd = "version" /\ p.out = "ok" THEN TRUE ELSE ver)
 
 Recv(x) ==
   /\ alive /\ held = {} /\ Budget
-  /\ \/ RecvFrame(x) \/ RecvNoVer(x) \/ RecvVersionAgain(x) \/ RecvIdle(x) \/ RecvValid(x) \/ RecvMalformed(x)
+  /\ \/ RecvFrame(x) \/ RecvNoVer(x) \/ RecvVersionAgain(x) \/ RecvIdle(x) \/ RecvEnv(x) \/ RecvValid(x) \/ RecvMalformed(x)
 
 Next == \E x \in Alphabet : Recv(x)
 
@@ -403,7 +416,7 @@ Spec == Init /\ [][Next]_vars
 TypeOK ==
   /\ alive \in BOOLEAN /\ ver \in BOOLEAN /\ score \in 0..(BanScore + 200) /\ cmpct \in 0..2
   /\ auth \in {"no", "got", "ok"} /\ addrd \in BOOLEAN /\ ahr \in BOOLEAN /\ bip \in BOOLEAN
-  /\ h1 \in {"no", "b2g", "got"} /\ h2 \in BOOLEAN /\ mp \in BOOLEAN /\ o1 \in BOOLEAN /\ o2 \in BOOLEAN /\ gd \in BOOLEAN
+  /\ h1 \in {"no", "b2g", "got"} /\ h2 \in BOOLEAN /\ mp \in BOOLEAN /\ o1 \in BOOLEAN /\ o2 \in BOOLEAN /\ gd \in BOOLEAN /\ pf \in BOOLEAN
   /\ held \subseteq Locks /\ order \in BOOLEAN /\ out \in Outcomes \cup {"panic"}
 
 HandlerReturnsClean == held = {} /\ out \in Outcomes
